@@ -20,7 +20,7 @@ WANT = {"C07"}
 
 def floors(ctx):
     return {"evaluations": 3000 if ctx.tier == "quick" else 30000,
-            "graphs_orders_all_differ": 300 if ctx.tier == "quick" else 3000, "graphs_with_former_members": 20}
+            "graphs_orders_all_differ": 300 if ctx.tier == "quick" else 3000, "graphs_with_former_members": 20, "graphs_with_former_links": 20}
 
 
 def run(ctx):
